@@ -313,6 +313,9 @@ Inductive idx : Type :=
 Inductive op : Type :=
 | ReadRecord (t : bytes)                       (* a record arrives: setLine(t, false) *)
 | GetField (i : idx)                           (* $i  (vm.go Field: floatToInt(index.num())) *)
+| TypeOf (i : idx)                             (* is $i a string or a number-looking input field?  observed
+                                                  with a text on which the two compare differently: when
+                                                  $i is "10", ($i < 9) is 1 for a string, 0 for a strnum *)
 | SetField (i : idx) (t : bytes)               (* $i = t *)
 | GetlineField (i : idx) (t : bytes)           (* getline $i, the record read being t (vm.go GetlineField) *)
 | GetlineVar (t : bytes)                       (* getline var: the record read, t, goes to a variable;
@@ -338,7 +341,8 @@ Inductive out : Type :=
 | ONone
 | OVal (b : bytes)
 | ONF (v : value)
-| OAll (v : value) (fl : list bytes).
+| OAll (v : value) (fl : list bytes)
+| OTyp (b : option bool).                      (* Some isTrueStr when the text is "10", else None *)
 
 Definition set_fs (s : state) (f : bytes) (r : option rx) : res state :=
   let upd (re : option rx) :=
@@ -388,6 +392,10 @@ Definition exec_op (s : state) (o : op) : res (state * out) :=
   | GetField i =>
       do (s0, k) <- eval_idx s i;
       do (s1, f, _) <- get_field s0 k; Ok (s1, OVal f)
+  | TypeOf i =>
+      do (s0, k) <- eval_idx s i;
+      do (s1, f, t) <- get_field s0 k;
+      Ok (s1, OTyp (if bytes_eqb f [49; 48] then Some t else None))
   | SetField i t =>
       do (s0, k) <- eval_idx s i;
       do s1 <- set_field s0 k t; Ok (s1, ONone)
